@@ -719,5 +719,5 @@ def run(ctx: Ctx, rep: Report, tier: str) -> None:
 
 
 # what the later rounds (seeding rounds 2-5, refactor twins, defect hunt) added to what the check decides
-LATER_ROUNDS = "every produced entry is stored on every path, entries not keys, both sides agree, blocks keep identity through the split"
+LATER_ROUNDS = "every produced entry is stored on every path, entries not keys, both sides agree, blocks keep identity through the split, the pieces of a split entry are put back as the entries they are, rebuilt blocks get the ACL's settings, member data is not overwritten by the container"
 EXPLANATION = EXPLANATION.replace(" Does not decide", " Later rounds added: " + LATER_ROUNDS + ". Does not decide", 1) if " Does not decide" in EXPLANATION else EXPLANATION + " Later rounds added: " + LATER_ROUNDS + "."
